@@ -85,8 +85,10 @@ namespace igris
         static void serialize(Archive &keeper, const std::vector<T> &vec)
         {
             igris::serialize(keeper, (uint16_t)vec.size());
-            igris::serialize(keeper,
-                             igris::archive::data<T>{vec.data(), vec.size()});
+            for (const auto &value : vec)
+            {
+                igris::serialize(keeper, value);
+            }
         }
 
         static void deserialize(Archive &keeper, std::vector<T> &vec)
